@@ -38,6 +38,9 @@ pub struct Case {
     pub suffix: String,
     pub fullwidth: bool,
     pub mutation: Option<Mutation>,
+    /// an earlier, unrelated (possibly malformed) numeral run, closed by a neutral word, in the same text
+    #[serde(default)]
+    pub preamble: Option<String>,
 }
 
 pub struct C15;
@@ -212,8 +215,12 @@ impl Property for C15 {
         ]
     }
     fn strategy(&self, _tier: Tier) -> BoxedStrategy<Case> {
-        (num(), select(vec!["", "あ", "x", "は"]), select(vec!["", "あ", "円", "x"]), prop::bool::weighted(0.2), prop::option::weighted(0.35, mutation()))
-            .prop_map(|(num, prefix, suffix, fullwidth, mutation)| Case { num, prefix: prefix.to_string(), suffix: suffix.to_string(), fullwidth, mutation })
+        let pre = prop_oneof![
+            3 => select(vec!["3.", "1,", "2千", "12", ".5", "千", "1,23", "5.5.", "万", "一.", "3,000,"]).prop_map(|s| s.to_string()),
+            1 => "[0-9一二三十百千万億,.]{1,6}",
+        ];
+        (num(), select(vec!["", "あ", "x", "は"]), select(vec!["", "あ", "円", "x"]), prop::bool::weighted(0.2), prop::option::weighted(0.35, mutation()), prop::option::weighted(0.3, (pre, select(vec!["は", "あ", "x", "円"]))))
+            .prop_map(|(num, prefix, suffix, fullwidth, mutation, preamble)| Case { num, prefix: prefix.to_string(), suffix: suffix.to_string(), fullwidth, mutation, preamble: preamble.map(|(a, b)| format!("{}{}", a, b)) })
             .boxed()
     }
     fn cases_per_shard(&self, tier: Tier) -> u32 {
@@ -225,7 +232,7 @@ impl Property for C15 {
             Some(m) => apply_mutation(&s, m),
             None => s.clone(),
         };
-        json!({"text": format!("{}{}{}", case.prefix, if case.fullwidth { to_fullwidth(&shown) } else { shown }, case.suffix), "expected_if_well_formed": e, "mutation": case.mutation})
+        json!({"text": format!("{}{}{}{}", case.preamble.clone().unwrap_or_default(), case.prefix, if case.fullwidth { to_fullwidth(&shown) } else { shown }, case.suffix), "expected_if_well_formed": e, "mutation": case.mutation})
     }
     fn check(&self, case: &Case, ctx: &mut Ctx) -> Report {
         let mut rep = Report::default();
@@ -236,7 +243,11 @@ impl Property for C15 {
             None => notation.clone(),
         };
         let shown = if case.fullwidth { to_fullwidth(&numeral) } else { numeral.clone() };
-        let text = format!("{}{}{}", case.prefix, shown, case.suffix);
+        let lead = format!("{}{}", case.preamble.clone().unwrap_or_default(), case.prefix);
+        let text = format!("{}{}{}", lead, shown, case.suffix);
+        if case.preamble.is_some() {
+            rep.class("earlier numeral run in the same text");
+        }
         let ml = match analyze(&dict, &text, Mode::C, None) {
             Ok(m) => m,
             Err(e) => {
@@ -244,7 +255,9 @@ impl Property for C15 {
                 return rep;
             }
         };
-        let (start, end) = (case.prefix.len(), case.prefix.len() + shown.len());
+        // the preamble ends with a neutral word, so the judged numeral is its own run; if the prefix is
+        // empty the neutral word of the preamble separates them
+        let (start, end) = (lead.len(), lead.len() + shown.len());
         if case.mutation.is_none() {
             if case.num.is_f11_class() {
                 rep.class("fraction with integer part 0 times a unit");
@@ -314,11 +327,11 @@ impl Property for C15 {
 pub fn fixtures() -> Vec<(&'static str, Case, &'static str)> {
     vec![(
         "f20-comma-before-unit.json",
-        Case { num: Num::Plain { digits: vec![1], frac: None, style: 0, sel: 0 }, prefix: "".into(), suffix: "".into(), fullwidth: false, mutation: Some(Mutation::Noise("二,兆".into())) },
+        Case { num: Num::Plain { digits: vec![1], frac: None, style: 0, sel: 0 }, prefix: "".into(), suffix: "".into(), fullwidth: false, mutation: Some(Mutation::Noise("二,兆".into())), preamble: None },
         "F20: a thousands separator directly followed by a unit (二,兆) is accepted and the piece is joined as 2000000000000",
     ), (
         "f11-zero-fraction-times-unit.json",
-        Case { num: Num::FracUnit { int: vec![0], frac: vec![5], small: Some(3), large: None }, prefix: "".into(), suffix: "".into(), fullwidth: false, mutation: None },
+        Case { num: Num::FracUnit { int: vec![0], frac: vec![5], small: Some(3), large: None }, prefix: "".into(), suffix: "".into(), fullwidth: false, mutation: None, preamble: None },
         "F11: 0.5千 is joined and normalised to 0500 instead of 500",
     )]
 }
